@@ -2,6 +2,8 @@
 import json
 import vlib
 import chancheck
+import seqcheck
+import core
 
 
 def _chan(pid, tier, seed):
@@ -9,15 +11,21 @@ def _chan(pid, tier, seed):
     return chancheck.CHECKS[pid](cx)
 
 
+def _seq(pid, tier, seed):
+    cx = core.Ctx(pid, tier, seed)
+    return seqcheck.CHECKS[pid](cx)
+
+
 CHECKS = {pid: _chan for pid in chancheck.CHECKS}
+CHECKS.update({pid: _seq for pid in seqcheck.CHECKS})
 
 
 def replay(pid, path):
     obj = json.load(open(path))
-    if obj.get("module") == "chan":
+    if obj.get("module"):
         wd = vlib.workdir("replay")
         drv, _ = vlib.build_driver(wd)
-        res = vlib.run_driver(drv, "chan", [obj["case"]], wd, shards=1)[0]
+        res = vlib.run_driver(drv, obj["module"], [obj["case"]], wd, shards=1)[0]
         vlib.cleanup(wd)
         fails = [f for f in res.get("fails") or [] if f["prop"] == pid]
         for f in fails:
